@@ -24,14 +24,53 @@ ASSUMPTIONS = ["C02_char/sym/trans carry the converse of C01 (collision-free dig
                "hash(node) = hash(node.id); constancy of id is C10's frame condition"]
 
 
+EMPTY_R = Con("R", Con("P", 0, 1, 0), Con("P", 0, 1, 0))
+
+
+def near_variants(o):
+    """origins that differ from o as little as possible (same fqn where possible)"""
+    out = []
+    n = o.name
+    if n == "OGen":
+        out.append(Con("OCode", o.args[0], EMPTY_R))           # same source, same (empty) range, other class
+    if n == "OCode":
+        r = o.args[1]
+        if r == EMPTY_R:
+            out.append(Con("OGen", o.args[0]))
+        s, e = r.args
+        out.append(Con("OCode", o.args[0], Con("R", s, Con("P", e.args[0], e.args[1] + 1, e.args[2]))))   # same indices, other line
+        out.append(Con("OCode", Con("SMem", b"other", None), r))
+    if n == "OXml":
+        out.append(Con("OXml", o.args[0], o.args[1] + b"x"))
+        out.append(Con("OEntire", o.args[0]))
+    if n == "OEntire":
+        out.append(Con("OGen", o.args[0]))
+    if n == "ONo":
+        out.append(Con("OGen", Con("SNo")))
+    if n == "OMulti":
+        ms = list(o.args[0])
+        for i, m in enumerate(ms):
+            for v in near_variants(m):
+                if v.name not in ("ONo", "OMulti"):
+                    out.append(Con("OMulti", ms[:i] + [v] + ms[i + 1:]))
+        if len(ms) >= 2:
+            out.append(Con("OMulti", list(reversed(ms))))
+            out.append(Con("OMulti", ms + [ms[0]]))
+    return [v for v in out if v != o]
+
+
 def change_origin_somewhere(rng, t):
     ps = list(paths(t))
     path = rng.choice(ps)
     old = get_at(t, path).args[2]
-    for _ in range(10):
-        o = gen_origin(rng)
-        if o != old:
-            break
+    near = near_variants(old)
+    if near and rng.random() < 0.6:
+        o = rng.choice(near)
+    else:
+        for _ in range(10):
+            o = gen_origin(rng)
+            if o != old:
+                break
     return replace_at(t, path, lambda x: with_origin(x, o)), len(path)
 
 
@@ -96,11 +135,37 @@ def impl(t, case):
             extra.append("eq-non-node-raises:" + type(e).__name__)
     if hash(a) != ha or hash(a) != hash(a.id):
         extra.append("hash-not-constant")
+    extra += same_named_class_probe()
     del bd, a, b, c
     gc.collect()
     if extra:
         return Con("EqExtra", r, sorted(set(extra)))
     return r
+
+
+_PROBE = []
+
+
+def same_named_class_probe():
+    """comparing with a node of another class is False, also when the other class has the same name, fields, values
+    and origin (two classes made by one factory). Outside the model (class identity = class name there)."""
+    if not _PROBE:
+        from dataclasses import dataclass
+
+        from pyoak.node import ASTNode
+
+        def mk():
+            @dataclass(frozen=True)
+            class VerifTwinProbe(ASTNode):
+                x: int = 0
+            return VerifTwinProbe
+        _PROBE.extend([mk(), mk()])
+    A, B = _PROBE
+    a, b = A(x=1), B(x=1)
+    out = []
+    if a == b or b == a or not (a != b):
+        out.append("eq-same-named-other-class")
+    return out
 
 
 CLAUSES = ["a==b", "b==a", "a!=b", "a==a", "b==c", "a==c"]
